@@ -126,18 +126,40 @@ def check(ctx, run):
         run.broke("C17.R2: the restoring post action cannot be folded: %s" % u)
     run.ob("R2", "restore folded over tables of 0..4 entries (incl. a pointer redirected several times) and over the table filled to MAX_SET-1 and MAX_SET entries: every pointer gets back the value it had before the test, entries above the index are ignored", po.site, bad is None, witness=bad or "7 tables",
            what="" if bad is None else "a pointer redirected twice in one test would not get its first value back, or entries are skipped: " + bad)
-    okr = True
-    for p in enumerate_paths(po):
-        a = [(l, render(po, r)) for l, r, n in assignments(po, p)]
-        if not a or a[-1] != ("pointerTableIndex", "0"):
-            okr = False
-    run.ob("R2", "the index is reset to 0 on every exit of the post action", po.site, okr)
-    m = prog.macros.get("UT_PTR_SET", [])
-    body = m[0]["body"] if m else ""
-    i1, i2 = body.find("CppUTestStore"), body.find("( a ) = b") if "( a ) = b" in body else body.replace(" ", "").find("(a)=b")
-    compact = body.replace(" ", "")
-    ok = "CppUTestStore((void**)&(a));(a)=b;" in compact
-    run.ob("R2", "UT_PTR_SET records the old value before assigning the new one", "include/CppUTest/TestPlugin.h:UT_PTR_SET", ok, witness=body)
+    # (the index is 0 after the post action in every one of the folded tables above: the reset is part of that obligation)
+    # UT_PTR_SET: its expansion folded in a witness unit parsed against the current headers (one function per use): the location is
+    # handed to CppUTestStore while it still holds the old value, then the new value is assigned
+    import os
+    wp = ctx.witness(os.path.join(os.path.dirname(os.path.dirname(os.path.abspath(__file__))), "witness", "C17_macros.cpp"))
+    nw = 0
+    for wf in sorted((g for g in wp.functions.values() if g.qn.startswith("w_UT_PTR_SET")), key=lambda g: g.line):
+        nw += 1
+        seen = []
+
+        def store(ev_, *a_):
+            seen.append((a_[-1], dict(ev_.env)))
+            return 0
+        store.wants_ev = True
+        env = {"number_slot": 111, "slot": ("fn", "old")}
+        env.update({q["name"]: 222 for q in wf.params})
+        ev = Evaluator(wp, wf, env=env, calls={"CppUTestStore": store})
+        try:
+            ev.run_blocks(wf.entry, max_steps=300)
+        except Unknown as u:
+            raise AnalysisBroken("C17.R2: the expansion of UT_PTR_SET cannot be folded (%s): %s" % (wf.qn, u))
+        var = "number_slot" if wf.params else "slot"
+        old, new_ = env[var], (222 if wf.params else ("fn", "replacement"))
+        why = ""
+        if len(seen) != 1 or seen[0][0] != ("ref", var):
+            why = "the location is not handed to CppUTestStore exactly once (%s)" % [x[0] for x in seen]
+        elif seen[0][1].get(var) != old:
+            why = "when the location is recorded it already holds %s: the value saved is not the one before the test" % (seen[0][1].get(var),)
+        elif ev.env.get(var) != new_:
+            why = "the location holds %s afterwards, the new value is %s" % (ev.env.get(var), new_)
+        run.ob("R2", "UT_PTR_SET folded (%s pointer): records the location while it still holds the old value, then assigns the new one" % ("data" if wf.params else "function"), "include/CppUTest/TestPlugin.h:UT_PTR_SET", not why,
+               witness=why or {"recorded": str(seen[0][0]), "value then": str(seen[0][1].get(var)), "value after": str(ev.env.get(var))}, what=why)
+    if nw < 2:
+        raise AnalysisBroken("C17.R2: witness functions for UT_PTR_SET not found")
 
     # ---------------- R3 ----------------------------------------------------
     plugin_chain_order(prog, run, "R3")
